@@ -14,9 +14,10 @@ static session_table *T;
 static const uint8_t *OWN;
 static e1_cfg pseudo;
 
-enum { TB_EMPTY, TB_SAME_SEQ, TB_OTHER_SEQ, TB_OTHER_GEN, TB_OTHER_MAPPER, TB_FULL, TB_HOLE_SAME_SEQ, TB_HOLE_OTHER_SEQ, TB_LAST_SLOT_OTHER_SEQ, TB_N };
+enum { TB_EMPTY, TB_SAME_SEQ, TB_OTHER_SEQ, TB_OTHER_GEN, TB_OTHER_MAPPER, TB_FULL, TB_HOLE_SAME_SEQ, TB_HOLE_OTHER_SEQ, TB_LAST_SLOT_OTHER_SEQ, TB_TWIN_MAPPER, TB_N };
 static const char *TBNAME[] = {"empty", "same mapper+generation, same seq", "same mapper+generation, other seq", "same mapper, other generation", "other mapper, same generation", "full table without the session",
-                               "session behind a freed slot, same seq", "session behind a freed slot, other seq", "session in the last slot of an otherwise full table, other seq"};
+                               "session behind a freed slot, same seq", "session behind a freed slot, other seq", "session in the last slot of an otherwise full table, other seq",
+                               "a twin of the mapper (differs in the first two octets only), same generation, other seq"};
 #define GEN 0x0A0B
 #define SEQ 0x0011
 
@@ -33,6 +34,7 @@ static void table_shape(int shape) {
         case TB_LAST_SLOT_OTHER_SEQ:
             for (int i = 0; i < SESSION_TABLE_MAX_ENTRIES - 1; i++) { uint8_t m[6] = {0, 0xaa, 0xbb, 0xcc, 0xdd, (uint8_t)i}; session_table_add(T, m, (uint16_t)(GEN + (i & 1)), SEQ + 1); }
             session_table_add(T, vf_station[ST_M1], GEN, SEQ + 1); break;
+        case TB_TWIN_MAPPER: { uint8_t m[6]; memcpy(m, vf_station[ST_M1], 6); m[0] ^= 0x02; m[1] ^= 0x40; session_table_add(T, m, GEN, SEQ + 1); break; }
         case TB_FULL: for (int i = 0; i < SESSION_TABLE_MAX_ENTRIES; i++) { uint8_t m[6] = {0, 0xaa, 0xbb, 0xcc, 0xdd, (uint8_t)i}; session_table_add(T, m, (uint16_t)(GEN + (i & 1)), SEQ + 1); } break;
     }
 }
@@ -47,8 +49,10 @@ static size_t build_discover(uint8_t *buf, size_t mtu, int count, int pos) {
     for (int i = 0; i < count; i++) {
         /* fillers share 5 leading or 5 trailing bytes with the own address */
         uint8_t a[6]; memcpy(a, OWN, 6);
-        if (i & 1) a[0] ^= (uint8_t)(0x10 + (i & 0x0e)); else a[5] ^= (uint8_t)(1 + (i % 200));
-        if (a[5] == OWN[5] && a[0] == OWN[0]) a[5] ^= 0x80;
+        if (i % 8 == 7) { a[0] ^= 0x02; a[1] ^= (uint8_t)(0x40 >> (i / 8 % 6)); }            /* twins: equal in the last four octets */
+        else if (i % 8 == 6) { static const uint8_t mk[3] = {0x01, 0x80, 0x10}; a[(i / 8) % 6] ^= mk[(i / 48) % 3]; }   /* near misses in every octet */
+        else if (i & 1) a[0] ^= (uint8_t)(0x10 + (i & 0x0e)); else a[5] ^= (uint8_t)(1 + (i % 200));
+        if (memcmp(a, OWN, 6) == 0) a[5] ^= 0x80;
         memcpy(buf + 36 + 6 * i, a, 6);
     }
     if (pos >= 0) memcpy(buf + 36 + 6 * pos, OWN, 6);
@@ -66,9 +70,18 @@ static const char *evname(int e) {
 }
 
 /* path: [0, mtu, count, pos+8, shape] for Discover; [1, opcode, dst] for the opcode sweep */
+/* address variants (flags bits 2..3): 0 the default stations; 1 own 00:50:f2:12:34:56, mapper 00:50:f2:aa:bb:01 (third octet >= 0x80);
+ * 2 own 82:ff:80:ff:80:fe, mapper fe:ff:ff:ff:ff:fe (top bits set everywhere) */
+static uint8_t OWN0[6], M10[6];
+static void set_addresses(int v) {
+    static const uint8_t own1[6] = {0x00, 0x50, 0xf2, 0x12, 0x34, 0x56}, m1[6] = {0x00, 0x50, 0xf2, 0xaa, 0xbb, 0x01};
+    static const uint8_t own2[6] = {0x82, 0xff, 0x80, 0xff, 0x80, 0xfe}, m2[6] = {0xfe, 0xff, 0xff, 0xff, 0xff, 0xfe};
+    memcpy(W.iface[0].mac, v == 1 ? own1 : v == 2 ? own2 : OWN0, 6); memcpy(vf_station[ST_M1], v == 1 ? m1 : v == 2 ? m2 : M10, 6);
+}
 static void one_discover(size_t mtu, int count, int pos, int shape, int flags) {
     static uint8_t buf[VF_MAXMTU + 64];
     int null_mac = flags & 1; BRIDGED = (flags >> 1) & 1;
+    set_addresses((flags >> 2) & 3);
     build_discover(buf, mtu, count, pos);
     BRIDGED = 0;
     table_shape(shape);
@@ -79,8 +92,9 @@ static void one_discover(size_t mtu, int count, int pos, int shape, int flags) {
     evals += 2;
     if (ev2 != ev) vf_violation("classify:length-bounded-variant-differs", "Discover with %d stations received completely: derive_session_event_len -> %s, derive_session_event -> %s", count, evname(ev2), evname(ev));
     vf_outcome(vf_hash64(&ev, sizeof ev, (uint64_t)(pos >= 0) + 2u * (uint64_t)shape));
-    if (A.verbose) printf("    Discover(%scount=%d, own address %s, table: %s) -> %s\n", (flags & 2) ? "through a bridge, " : "", count, pos >= 0 ? "listed" : "not listed", TBNAME[shape], evname(ev));
-    if (null_mac) return;                       /* only memory safety is demanded without an own address */
+    if (A.verbose) printf("    Discover(%saddress set %d, count=%d, own address %s, table: %s) -> %s\n", (flags & 2) ? "through a bridge, " : "", (flags >> 2) & 3, count, pos >= 0 ? "listed" : "not listed", TBNAME[shape], evname(ev));
+    if (null_mac) { set_addresses(0); return; }                       /* only memory safety is demanded without an own address */
+    set_addresses(0);
     int changed = (shape == TB_OTHER_SEQ || shape == TB_HOLE_OTHER_SEQ || shape == TB_LAST_SLOT_OTHER_SEQ);
     int ack_class = (ev == sess_discover_acking || ev == sess_discover_acking_chgd_xid);
     int noack_class = (ev == sess_discover_noack || ev == sess_discover_noack_chgd_xid);
@@ -118,17 +132,20 @@ static void one_truncated(size_t mtu, int count, int held, int pos) {
 
 static void one_opcode(int opcode, int dst) {
     static uint8_t buf[1600]; memset(buf, 0, sizeof buf);
-    const uint8_t *d = dst == 0 ? vf_station[ST_BC] : dst == 1 ? OWN : vf_station[ST_M1];
+    static const uint8_t mc6[6] = {0x33, 0x33, 0xff, 0xff, 0xff, 0xff};      /* an IPv6 multicast group address: not the broadcast address */
+    int av = dst >> 2; dst &= 3; set_addresses(av);
+    const uint8_t *d = dst == 0 ? vf_station[ST_BC] : dst == 1 ? OWN : dst == 3 ? mc6 : vf_station[ST_M1];
     fb_base(buf, d, vf_station[ST_M1], 0, (uint8_t)opcode, d, vf_station[ST_M1], SEQ);
     table_shape(TB_EMPTY);
-    static int p[3]; p[0] = 1; p[1] = opcode; p[2] = dst; e1_manual_path(&pseudo, p, 3);
-    if (opcode == 0x00) return;
+    static int p[3]; p[0] = 1; p[1] = opcode; p[2] = dst | (av << 2); e1_manual_path(&pseudo, p, 3);
+    if (opcode == 0x00) { set_addresses(0); return; }
     int ev = derive_session_event(buf, T, OWN);
+    set_addresses(0);
     evals++;
     int exp = opcode == 0x08 ? (dst == 0 ? sess_topo_reset : sess_reset) : opcode == 0x01 ? sess_hello : -1;
     vf_outcome(vf_hash64(&ev, sizeof ev, 99));
-    if (A.verbose) printf("    opcode 0x%02x, real destination %s -> %s\n", opcode, dst == 0 ? "broadcast" : dst == 1 ? "own" : "M1", evname(ev));
-    if (ev != exp) { char sig[96]; snprintf(sig, sizeof sig, "classify:opcode-0x%02x", opcode == 0x08 || opcode == 0x01 ? opcode : 0xEE); vf_violation(sig, "frame with opcode 0x%02x and real destination %s classified as %s, expected %s", opcode, dst == 0 ? "broadcast" : dst == 1 ? "own" : "M1", evname(ev), evname(exp)); }
+    if (A.verbose) printf("    opcode 0x%02x, real destination %s -> %s\n", opcode, dst == 0 ? "broadcast" : dst == 1 ? "own" : dst == 3 ? "33:33:ff:ff:ff:ff" : "M1", evname(ev));
+    if (ev != exp) { char sig[96]; snprintf(sig, sizeof sig, "classify:opcode-0x%02x", opcode == 0x08 || opcode == 0x01 ? opcode : 0xEE); vf_violation(sig, "frame with opcode 0x%02x and real destination %s classified as %s, expected %s", opcode, dst == 0 ? "broadcast" : dst == 1 ? "own" : dst == 3 ? "33:33:ff:ff:ff:ff" : "M1", evname(ev), evname(exp)); }
 }
 
 static int staged[8], nst;
@@ -144,7 +161,7 @@ static void ps_apply(int ev) {
 int main(int argc, char **argv) {
     vf_parse_args(argc, argv, "C11");
     vf_world_init(1500, 0, (uint8_t)A.fill);
-    OWN = W.iface[0].mac;
+    OWN = W.iface[0].mac; memcpy(OWN0, OWN, 6); memcpy(M10, vf_station[ST_M1], 6);
     pseudo = (e1_cfg){ .nev = 1 << 16, .ev_name = ps_name, .apply = ps_apply, .root_setup = ps_root };
     if (A.replay) { A.verbose = 1; return e1_replay_file(&pseudo, A.replay); }
     double t0 = vf_now_s();
@@ -153,6 +170,7 @@ int main(int argc, char **argv) {
     for (int mi = 0; mi < 2; mi++) for (int count = 0; count <= 240; count++) for (int shape = 0; shape < TB_N; shape++) {
         for (int pos = -3; pos < count; pos++) one_discover(mtus[mi], count, pos, shape, 0);
         if (mi == 0) for (int pos = -1; pos < count; pos++) one_discover(mtus[mi], count, pos, shape, 2);      /* the same through a bridge */
+        if (mi == 0) for (int av = 1; av < 3; av++) for (int pos = -1; pos < count; pos++) one_discover(mtus[mi], count, pos, shape, av << 2);      /* other address sets */
         one_discover(mtus[mi], count, -1, shape, 1);
         if (count) one_discover(mtus[mi], count, count / 2, shape, 1);
     }
@@ -160,9 +178,10 @@ int main(int argc, char **argv) {
         int helds[5] = {0, 1, count / 2, count - 1, count};
         for (int hi = 0; hi < 5; hi++) { int h = helds[hi]; int poss[6] = {-1, 0, h - 1, h, count - 1, count / 3}; for (int pi = 0; pi < 6; pi++) if (poss[pi] >= -1 && poss[pi] < count) one_truncated(1500, count, h, poss[pi]); }
     }
-    for (int op = 0; op < 256; op++) for (int dst = 0; dst < 3; dst++) one_opcode(op, dst);
+    for (int av = 0; av < 3; av++) for (int op = 0; op < 256; op++) for (int dst = 0; dst < 4; dst++) one_opcode(op, dst | (av << 2));
     vf_sample("Discover(count=240, own address at position 239, table: same mapper+generation, other seq) -> must be discover_acking_chgd_xid");
     vf_sample("the same layouts with Ethernet source = a bridge and real source = the mapper (MTU 1500): the session is the real source's");
+    vf_sample("three address sets (default; third octet >= 0x80; top bits set in every octet); fillers include near misses in every octet and twins equal in the last four octets; a twin of the mapper in the table");
     vf_sample("Discover(count=5, own address only at byte offset 56 (where a 14-byte-stride reader looks), table empty) -> must be discover_noack");
     vf_sample("truncated Discover: count 1..240 x received stations {0,1,count/2,count-1,count} x own address inside / beyond the received part (bounded entry point)");
     vf_sample("opcode 0x08 with real destination broadcast -> topo_reset; unicast -> reset; opcode 0x01 -> hello; all 253 others -> no event");
